@@ -135,8 +135,21 @@ let item domain (f : fn) i : int list option =
   | "u16x3" -> Some [(i lsr 32) land 0xFFFF; (i lsr 16) land 0xFFFF; i land 0xFFFF]
   | d -> failwith ("drv_utf: unknown domain " ^ d)
 
+(* the line without the units: outcome class, size, terminator *)
+let shape_of line =
+  if String.length line > 3 && String.sub line 0 3 = "OK " then
+    (match String.rindex_opt line 's' with
+     | _ ->
+         let rec find i = if i < 0 then None
+           else if i + 6 <= String.length line && String.sub line i 6 = " size=" then Some i else find (i - 1) in
+         (match find (String.length line - 6) with
+          | Some i -> "OK" ^ String.sub line i (String.length line - i)
+          | None -> line))
+  else line
+
 let enum domain (f : fn) route mode sub lo hi : string * string =
   let hm = ref fnv_init and hs = ref fnv_init and cnt = ref 0 and any = ref false in
+  let shm = ref fnv_init and shs = ref fnv_init in
   for i = lo to hi - 1 do
     match item domain f i with
     | None -> ()
@@ -149,10 +162,13 @@ let enum domain (f : fn) route mode sub lo hi : string * string =
         if s = "ANYOK" || s = "ANY" then any := true;
         hm := fnv_add !hm (m ^ "\n");
         hs := fnv_add !hs (s ^ "\n");
+        shm := fnv_add !shm (shape_of m ^ "\n");
+        shs := fnv_add !shs (shape_of s ^ "\n");
         incr cnt
   done;
-  (Printf.sprintf "OK n=%d fnv=%016Lx" !cnt !hm,
-   if !any then Printf.sprintf "OK n=%d fnv=*" !cnt else Printf.sprintf "OK n=%d fnv=%016Lx" !cnt !hs)
+  (Printf.sprintf "OK n=%d fnv=%016Lx shape=%016Lx" !cnt !hm !shm,
+   if !any then Printf.sprintf "OK n=%d fnv=* shape=*" !cnt
+   else Printf.sprintf "OK n=%d fnv=%016Lx shape=%016Lx" !cnt !hs !shs)
 
 let lookup name =
   try List.assoc name fn_table with Not_found -> failwith ("drv_utf: unknown function " ^ name)
